@@ -118,3 +118,45 @@ class ClearAlarm:
 
     def ensures_report(self, alid, old):
         return report_content(self, alid, old, False) and ce_content(self, alid, old, False)
+
+
+def _alarm_replay(setting):
+    """Native demonstration on a real equipment handler: set / clear of an enabled and of a disabled alarm, twice each."""
+    import logging
+    from bounded import C13_api as A
+    logging.disable(logging.CRITICAL)
+    failed, seen = [], []
+    for enabled in (True, False):
+        sess = A.Session()
+        try:
+            h = sess.handler
+            alid = next(iter(A.AL))
+            other = [k for k in A.AL if k != alid]
+            h.alarms[alid].enabled = enabled
+            h.alarms[alid].set = not setting
+            before_other = [(h.alarms[k].set, h.alarms[k].enabled) for k in other]
+            sess.s5f1.clear()
+            op = h.set_alarm if setting else h.clear_alarm
+            op(alid)
+            first = len(sess.s5f1)
+            alcd = sess.s5f1[0][1][0][1][0] if sess.s5f1 else None
+            op(alid)
+            second = len(sess.s5f1) - first
+            seen.append({"alarm_enabled": enabled, "reports_on_change": first, "alcd": alcd, "reports_on_repeat": second, "set_after": h.alarms[alid].set})
+            if first != (1 if enabled else 0):
+                failed.append(f"{'set' if setting else 'clear'} of an alarm that is {'enabled' if enabled else 'disabled'}: {first} S5F1")
+            if enabled and first == 1 and isinstance(alcd, int) and bool(alcd & 0x80) != setting:
+                failed.append(f"ALCD {alcd:#x}: set bit does not say {'set' if setting else 'cleared'}")
+            if second != 0:
+                failed.append("repeating the operation (no change of the set state) sent another S5F1")
+            if h.alarms[alid].set != setting or h.alarms[alid].enabled != enabled:
+                failed.append("alarm state / enabled flag after the operation is wrong")
+            if [(h.alarms[k].set, h.alarms[k].enabled) for k in other] != before_other:
+                failed.append("another alarm was changed")
+        finally:
+            sess.close()
+    return {"status": "confirmed" if failed else "spurious", "failed_clauses": failed, "inputs": {"operation": "set_alarm" if setting else "clear_alarm"}, "observed": seen}
+
+
+SetAlarm.replay = staticmethod(lambda case, name, model: _alarm_replay(True))
+ClearAlarm.replay = staticmethod(lambda case, name, model: _alarm_replay(False))
